@@ -8,6 +8,7 @@ import Check.C19
 import Check.C20
 import Check.Sys
 import Check.C09
+import Check.C10
 import Check.C12
 import Check.C13
 /-! upfcheck: `upfcheck <property> <trace>` replays every case of the trace through the Lean model
@@ -47,6 +48,7 @@ def checker (prop : String) : Option Checker :=
   | "C14" => some (sysChecker ["C14", "C01"])
   | "C09" => some ⟨Sys.St, {}, C09.step⟩
   | "C13" => some ⟨Sys.St, {}, C13.step⟩
+  | "C10" => some ⟨Sys.St, {}, C10.step⟩
   | "C12" => some ⟨Sys.St, {}, C12.step⟩
   | "SYS" => some (sysChecker ["C01", "C02", "C03", "C05", "C07", "C14"])
   | _ => none
